@@ -64,6 +64,55 @@ print(json.dumps(out))
 '''
 
 
+CONFIG_SRC = r'''
+import random, json
+import monkeytype
+from monkeytype.config import DefaultConfig
+from monkeytype.tracing import CallTraceLogger
+class L(CallTraceLogger):
+    def __init__(s): s.n = 0
+    def log(s, t): s.n += 1
+def f(a): return a
+class C(DefaultConfig):
+    rate = None
+    def __init__(s): s.logs = []
+    def trace_logger(s):
+        l = L(); s.logs.append(l); return l
+    def code_filter(s): return lambda c: c is f.__code__
+    def sample_rate(s): return s.rate
+cfg = C()
+out = []
+random.seed(5)
+for rate in (None, 50, None, 2, 1, 100, None, 3):
+    cfg.rate = rate
+    with monkeytype.trace(cfg):
+        for i in range(4000): f(i)
+    out.append({"rate": rate, "n": 4000, "logged": cfg.logs[-1].n})
+print(json.dumps(out))
+'''
+
+
+def config_history_test(ctx):
+    """`monkeytype.trace(config)` with ONE long-lived configuration object whose sample_rate() answer changes between
+    blocks: every block samples at the rate in force when it is opened"""
+    import json
+    p = subprocess.run([common.PY, "-c", CONFIG_SRC], capture_output=True, text=True, env=common.sub_env(), timeout=300)
+    if p.returncode != 0:
+        return [], [{"what": "monkeytype.trace(config) over a history of sample rates failed: " + p.stderr[-400:]}]
+    rows = json.loads(p.stdout[p.stdout.index("["):])
+    bad = []
+    for i, r in enumerate(rows):
+        pexp = 1.0 if r["rate"] in (None, 1) else 1.0 / r["rate"]
+        sd = math.sqrt(r["n"] * pexp * (1 - pexp))
+        lo, hi = r["n"] * pexp - 6 * sd - 1e-9, r["n"] * pexp + 6 * sd + 1e-9
+        r["bounds"] = [round(lo, 1), round(hi, 1)]
+        if not (lo <= r["logged"] <= hi):
+            bad.append({"what": f"monkeytype.trace(config), block {i} of one configuration object whose sample_rate() answered "
+                                f"{[x['rate'] for x in rows[:i + 1]]} so far: {r['logged']} of {r['n']} calls traced at rate "
+                                f"{r['rate']}, expected within [{lo:.0f}, {hi:.0f}]", **r})
+    return rows, bad
+
+
 def nested_test(ctx):
     """a tracing block opened inside another one (same or different logger) samples at ITS OWN rate, the enclosing block at
     its own again afterwards"""
@@ -128,17 +177,20 @@ def run(ctx):
     failures += fbad
     nested, nbad = nested_test(ctx)
     failures += nbad
+    cfgh, cbad = config_history_test(ctx)
+    failures += cbad
     nontrivial = len({common.digest(c["term"]) for c in cases if c["stats"]["rate"] not in (None, 1) and c["stats"]["frames"] >= 5})
     d = tracer_cases.summarise(cases)
     return {
-        "evaluations": len(cases) + len(frac) + len(nested), "distinct_nontrivial": nontrivial,
+        "evaluations": len(cases) + len(frac) + len(nested) + len(cfgh), "distinct_nontrivial": nontrivial,
         "rule": "C02's generated programs (generators rebinding their parameters between yields, interleaved, closed, thrown "
                 "into) replayed with sample rates {None,1,2,3,10,100} and a seeded stand-in for random.randrange whose "
                 "draws are handed to the model; non-trivial = real sampling (rate > 1) and >= 5 frames; plus the traced "
                 "fraction over 20000 plain calls per rate against 6-sigma binomial bounds, and nested tracing blocks "
-                "(same / own logger) with different rates, each checked against its own rate",
+                "(same / own logger) with different rates, each checked against its own rate; monkeytype.trace(config) "
+                "over a history of rates answered by one configuration object",
         "samples": [{"program": c["prog"], "stats": c["stats"]} for c in cases[:3]],
-        "distribution": d, "extra": {"traced_fraction": frac, "nested_blocks": nested},
+        "distribution": d, "extra": {"traced_fraction": frac, "nested_blocks": nested, "config_history": cfgh},
         "failures": failures, "mismatches": mismatches,
         "relation": "rev (logged (run rate H)) = real logger.log calls /\\ keys (live (run rate H)) = CallTracer.traces",
     }
